@@ -3,8 +3,9 @@
 //! A design matrix is built as `X = (G + k) * diag(scale)`: G gaussian (or a small-integer lattice),
 //! per-column scale 10^(e/2), e in -6..=6, per-column offset k in {exactly centred, raw, +-1, +-100}
 //! (in units of the column's scale, at most one +-100 column so the conditioning stays bounded),
-//! optionally one constant column and one near-collinear pair (elastic net only, the pair only when
-//! the ridge part of the penalty is positive). Targets are `X w* + b* + sigma * noise` with a
+//! optionally one constant column, one near-collinear pair (elastic net only, the pair only when
+//! the ridge part of the penalty is positive) or one feature that is exactly uncorrelated with every
+//! target (column 0 = e_a - e_b with y_a = y_b). Targets are `X w* + b* + sigma * noise` with a
 //! row-sparse `w*`. The *case* stores the finished matrices, so a replay file is self-contained.
 
 use crate::oracle::Mat;
@@ -138,7 +139,7 @@ fn build(r: &Raw, flavor: Flavor, ridge_part: bool, specials: bool) -> (Mat, Mat
         }
     }
     // near-collinear pair
-    if enet && flavor != Flavor::F32 && !r.lattice && r.special == 1 && ridge_part && p >= 2 {
+    if enet && flavor != Flavor::F32 && !r.lattice && (r.special == 1 || r.special == 4) && ridge_part && p >= 2 {
         let a = idx(r.sp_a, p);
         let mut b = idx(r.sp_b, p);
         if b == a {
@@ -211,6 +212,29 @@ fn build(r: &Raw, flavor: Flavor, ridge_part: bool, specials: bool) -> (Mat, Mat
             x[i][j] = v;
         }
     }
+    // a feature exactly uncorrelated with every target: column 0 = scale * (e_a - e_b), and below y_b := y_a
+    let planted = if enet && r.special == 5 {
+        let a = idx(r.sp_a, n);
+        let mut b = idx(r.sp_b, n);
+        if b == a {
+            b = (a + 1) % n;
+        }
+        let e = if r.lattice { 0 } else { r.cols[0].0 };
+        let e = if flavor == Flavor::F32 { e.clamp(-2, 2) } else { e };
+        let v = 10f64.powf(e as f64 / 2.0);
+        for i in 0..n {
+            x[i][0] = if i == a {
+                v
+            } else if i == b {
+                -v
+            } else {
+                0.0
+            };
+        }
+        Some((a, b))
+    } else {
+        None
+    };
     if flavor == Flavor::F32 {
         for row in x.iter_mut() {
             for v in row.iter_mut() {
@@ -253,6 +277,9 @@ fn build(r: &Raw, flavor: Flavor, ridge_part: bool, specials: bool) -> (Mat, Mat
             };
             y[i][c] = if flavor == Flavor::F32 { to_f32(s) } else { s };
         }
+    }
+    if let Some((a, b)) = planted {
+        y[b] = y[a].clone();
     }
     (x, y)
 }
